@@ -503,6 +503,7 @@ func c17Real(c *Ctx) {
 	}
 	c17StatInfos(c)
 	c17LongNameNames(c)
+	c17FstatFollowsHandle(c)
 }
 
 // ---- kind statinfo: which owner and which attribute flags fileStatFromInfo reports, and which owner the long name shows ----
